@@ -142,7 +142,15 @@ def _render(v):
         return {'t': 'other', 'ty': t, 'v': repr(v)}
     if isinstance(v, float):
         if t in ('float', 'DSfloat'):
-            return {'t': t, 'v': float.__repr__(float(v))}
+            f = float(v)
+            if math.isnan(f):
+                q = 'nan'
+            elif math.isinf(f):
+                q = 'inf' if f > 0 else '-inf'
+            else:
+                n, d = f.as_integer_ratio()
+                q = [str(n), str(d)]
+            return {'t': t, 'v': float.__repr__(f), 'q': q}
         return {'t': 'other', 'ty': t, 'v': repr(v)}
     if isinstance(v, (bytes, bytearray)):
         return {'t': 'bytes', 'v': list(v)}
@@ -161,8 +169,10 @@ def _listing(ds):
     from pydicom.datadict import keyword_for_tag
     out = []
     for elem in ds:
+        raw = getattr(elem.value, 'original_string', None) if type(elem.value).__name__ in ('DSfloat', 'IS') else None
         out.append({'tag': [int(elem.tag.group), int(elem.tag.elem)], 'vr': str(elem.VR), 'vm': int(elem.VM),
-                    'kw': keyword_for_tag(elem.tag), 'name': str(elem.name), 'val': _render(elem.value)})
+                    'kw': keyword_for_tag(elem.tag), 'name': str(elem.name), 'val': _render(elem.value),
+                    'raw': raw if isinstance(raw, str) else None})
     return out
 
 
@@ -269,7 +279,9 @@ def _cval(v):
     if t in ('int', 'IS', 'BaseTag'):
         return '(VInt %s %s)' % ({'int': 'CInt', 'IS': 'CIs', 'BaseTag': 'CTag'}[t], cz(int(v['v'])))
     if t in ('float', 'DSfloat'):
-        return '(VNum %s %s)' % ({'float': 'CFloat', 'DSfloat': 'CDs'}[t], cstr(v['v']))
+        q = v['q']
+        fv = 'FNan' if q == 'nan' else '(FInf false)' if q == 'inf' else '(FInf true)' if q == '-inf' else '(FFin (%s # %s))' % (q[0] if int(q[0]) >= 0 else '(%s)' % q[0], q[1])
+        return '(VNum %s %s %s)' % ({'float': 'CFloat', 'DSfloat': 'CDs'}[t], fv, cstr(v['v']))
     if t == 'bytes':
         return '(VBytes %s)' % cbytes(bytes(v['v']))
     if t in ('list', 'MultiValue'):
@@ -286,8 +298,9 @@ def _cdict(kvs):
 
 
 def _cds(listing):
-    return clist('(mk_einfo (%s, %s) %s %s %s %s, %s)' % (cN(e['tag'][0]), cN(e['tag'][1]), cstr(e['vr']), cnat(e['vm']),
-                                                         cstr(e['kw']), cstr(e['name']), _cval(e['val'])) for e in listing)
+    return clist('(mk_einfo (%s, %s) %s %s %s %s %s, %s)' % (cN(e['tag'][0]), cN(e['tag'][1]), cstr(e['vr']), cnat(e['vm']),
+                                                            cstr(e['kw']), cstr(e['name']), copt(e.get('raw'), cstr), _cval(e['val']))
+                 for e in listing)
 
 
 def coq_case(case, obs):
@@ -950,7 +963,7 @@ def gen_cases(rng, tier):
     return out
 
 
-CORR_REQUIRE = "From DV Require Import Common.Str Extract.Model Extract.Corr."
+CORR_REQUIRE = "From Coq Require Import QArith.\nFrom DV Require Import Common.Str Common.PyNum Extract.Model Extract.Corr."
 CORR_CASE_TYPE = "Corr.case"
 CORR_CHECK = "Corr.check"
 CORR_SHOW = "Corr.show"
